@@ -12,6 +12,7 @@ type Tape struct {
 	replay bool     // replay mode: read from in
 	in     []uint64 // values to replay
 	pos    int
+	tail   bool // replay mode: once the recorded values are exhausted, continue with the generator
 	Rec    []uint64 // values handed out (already reduced)
 }
 
@@ -50,6 +51,12 @@ func ReplayTape(vals []uint64) *Tape {
 	return &Tape{replay: true, in: vals}
 }
 
+// ReplayThenSeed replays vals and then continues with a generator seeded with seed: used by
+// enumerated phases whose structural digits are swept while the remaining choices are seeded.
+func ReplayThenSeed(vals []uint64, seed uint64) *Tape {
+	return &Tape{replay: true, in: vals, tail: true, state: seed}
+}
+
 // Draw returns a value in [0,n). n<=1 returns 0 and still consumes a slot so that
 // tapes stay aligned when a bound shrinks to 1.
 func (t *Tape) Draw(n int) int {
@@ -57,6 +64,8 @@ func (t *Tape) Draw(n int) int {
 	if t.replay {
 		if t.pos < len(t.in) {
 			v = t.in[t.pos]
+		} else if t.tail {
+			v = splitmix(&t.state)
 		}
 		t.pos++
 	} else {
